@@ -140,7 +140,7 @@ def units(tier):
     return u
 
 
-BUDGET = {"quick": 200, "thorough": 2400}
+BUDGET = {"quick": 200, "thorough": 1200}
 UNIT_PATH_CAP = {"quick": 300, "thorough": 20000}
 BOUNDS = {
     "quick": "(newer, older) pairs: 8 S2 shapes x {drop nothing, drop all, drop each single field, two alternating subsets} + 24 S1 shapes with their field dropped; "
